@@ -130,6 +130,82 @@ def _ungrouped_task(task, p):
         p.sample(sub, {"axis_days": days, "begin_day": 5, "end_day": 12, "steps_in_window": ref_window(days, 5, 12)})
 
 
+def _tod_task(task, p):
+    """Axes stamped at 10:30 (not midnight): begin/end at 00:00, exactly on the stamp, and at 23:00 of every lattice
+    day, and the default window whose end is the last (non-midnight) timestamp."""
+    import pandas as pd
+    import xarray as xr
+    st, ut = _mods()
+    positions = task
+    sub = "time_of_day"
+    n = len(positions)
+    stamp = np.timedelta64(10 * 60 + 30, "m")
+    tvals = [day(STEP * k) + stamp for k in positions]
+    t = pd.DatetimeIndex(tvals)
+    da = xr.DataArray(PIX[:, list(positions)].reshape(5, 1, n), dims=("y", "x", "time"), coords={"time": t}, attrs={"nodata": ND})
+    x = da.values.reshape(5, 1, n)
+    tix = da.get_index("time")
+    cands = [None]
+    for k in range(-1, STEP * 8 + 2):
+        for hm in (0, 10 * 60 + 30, 23 * 60):
+            cands.append(day(k) + np.timedelta64(hm, "m"))
+    for b, e in itertools.product(cands, cands):
+        inside = [i for i, tv in enumerate(tvals) if (b is None or tv >= b) and (e is None or tv <= e)]
+        valid = len(inside) >= 2
+        kw = {}
+        if b is not None:
+            kw["calibration_begin"] = str(b)
+        if e is not None:
+            kw["calibration_end"] = str(e)
+        key = {"axis": list(positions), "begin": str(b), "end": str(e)}
+        case = {"kind": "tod", "axis": list(positions)}
+        p.count(sub, evaluations=1, nontrivial=1)
+        try:
+            with warnings.catch_warnings():
+                warnings.simplefilter("ignore")
+                res = da.hdc.algo.spi(**kw)
+            err = None
+        except ValueError as ex:
+            err = ex
+        except Exception as ex:
+            p.violation(sub, key, case, f"spi({kw}) on the 10:30 axis {list(positions)} raised {type(ex).__name__}: {ex}")
+            continue
+        if not valid:
+            if err is None:
+                p.violation(sub, key, case, f"spi({kw}) on the 10:30 axis days {[STEP * k for k in positions]}: window holds {len(inside)} step(s), ValueError required")
+            continue
+        if err is not None:
+            p.violation(sub, key, case, f"spi({kw}) on the 10:30 axis days {[STEP * k for k in positions]} raised ValueError({err}) although steps {inside} are inside")
+            continue
+        exp = np.asarray(st.gammastd_yxt(x, ND, inside[0], inside[-1] + 1)).reshape(5, n)
+        got = res.values.reshape(5, n)
+        if not np.array_equal(got, exp):
+            p.violation(sub, key, case, f"spi({kw}) on an axis stamped at 10:30 (days {[STEP * k for k in positions]}) does not fit on exactly the steps {inside}: "
+                                        f"{got[0].tolist()} vs {exp[0].tolist()}")
+        a = res.attrs
+        if a.get("spi_calibration_begin") != str(tix[inside[0]]) or a.get("spi_calibration_end") != str(tix[inside[-1]]):
+            p.violation(sub, dict(key, what="attrs"), case, f"spi({kw}) attrs {a.get('spi_calibration_begin')} / {a.get('spi_calibration_end')}, expected {tix[inside[0]]} / {tix[inside[-1]]}")
+    # grouped path on the same axis: default window and one sub-window
+    if n >= 6:
+        lab = [0, 1] * (n // 2) + [0] * (n % 2)
+        for kw in ({}, {"calibration_end": str(tvals[-2])}, {"calibration_begin": str(tvals[1])}):
+            with warnings.catch_warnings():
+                warnings.simplefilter("ignore")
+                try:
+                    got = da.hdc.algo.spi(groups=lab, **kw).values.reshape(5, n)
+                    exp = np.full((5, n), 12345)
+                    for g in (0, 1):
+                        m = [i for i in range(n) if lab[i] == g]
+                        exp[:, m] = da.isel(time=m).hdc.algo.spi(**kw).values.reshape(5, len(m))
+                except ValueError:
+                    continue
+            p.count(sub, evaluations=1, nontrivial=1)
+            if not np.array_equal(got, exp):
+                p.violation(sub, {"axis": list(positions), "grouped": True, "kw": kw}, case, f"grouped spi({kw}) on the 10:30 axis differs from the per-group ungrouped SPI")
+    if positions == (0, 2, 3, 5, 8):
+        p.sample(sub, {"axis_days": [STEP * k for k in positions], "stamp": "10:30", "candidates": "00:00 / 10:30 / 23:00 of every lattice day, and None"})
+
+
 SPELL = {
     "ints": lambda g: [int(v) for v in g],
     "strings": lambda g: [["10", "2", "1", "03"][v] for v in g],
@@ -296,6 +372,8 @@ def run(ctx):
     axes = [c for s in sizes for c in itertools.combinations(range(9), s)]
     ctx.pmap(_ungrouped_task, axes)
     ctx.note("ungrouped_axes", len(axes))
+    tod_axes = [(0, 2, 3, 5, 8), (0, 1, 2, 3, 4, 5), (1, 3, 4, 6, 7, 8), (0, 4, 8)] + ([c for c in itertools.combinations(range(9), 4)][::9] if ctx.thorough() else [])
+    ctx.pmap(_tod_task, tod_axes)
     if ctx.thorough():
         gaxes = [tuple(range(6)), (0, 1, 3, 4, 7, 8), tuple(range(7)), (0, 2, 3, 4, 6, 7, 8), tuple(range(8)), tuple(range(9))]
         maxk = 4
@@ -315,6 +393,8 @@ def run(ctx):
 def replay(sub, case, p):
     if case["kind"] == "win":
         _ungrouped_task(tuple(case["axis"]), p)
+    elif case["kind"] == "tod":
+        _tod_task(tuple(case["axis"]), p)
     elif case["kind"] == "grp":
         _grouped_task((tuple(case["axis"]), [tuple(case["labels"])], 4), p)
     else:
